@@ -34,7 +34,8 @@ ASSUMPTIONS = ['only commands mutate the collection between do and undo (the sta
                'operations outside the stack (edit-subset choice, edit mode, direct append, direct new group) run only while the history is empty',
                'commands whose do() raises are not generated', 'sampling, not proof']
 PROBES = ['undo_created_group', 'redo_created_group', 'undo_remove_data_with_groups', 'undo_depth_ge_3', 'history_bound_hit',
-          'redo_cleared_by_new_command', 'undo_after_restart_empty', 'andnot_or_xor_mode']
+          'redo_cleared_by_new_command', 'undo_after_restart_empty', 'andnot_or_xor_mode',
+          'edit_choice_changed_between_commands', 'redo_followed_not_compared']
 
 WEIGHTS = {'new_group': 0.5, 'append': 0.5, 'new': 2, 'do_add': 4, 'do_remove': 2, 'do_apply': 6, 'do_roi': 2, 'undo': 6, 'redo': 4,
            'set_edit': 1, 'set_mode': 1, 'restart': 0.3, 'collect': 0.3}
@@ -105,17 +106,33 @@ def execute(case, res):
 
 def _execute(case, res, tmp):
     w = W.World(case['knobs'], res, tmp)
-    hist, redo = [], []          # entries: {'before','after','kind','created','edit_ok'}
+    hist, redo = [], []          # entries: {'before','after','kind','created','edit_ok','redo_ok'}
+    outside = [False]
     for op in case['ops']:
         k = op[0]
         res.nops += 1
         is_do = k in ('do_add', 'do_remove', 'do_apply', 'do_roi')
-        if k in ('set_edit', 'set_mode', 'new_group', 'append') and (hist or redo):
-            # the statement quantifies over command sequences: state changed outside the stack between a
+        if k in ('new_group', 'append') and (hist or redo):
+            # the statement quantifies over command sequences: a collection changed outside the stack between a
             # command and its undo/redo legitimately changes what they do, so such ops run only on an
             # empty history (start of the run, after a restart)
             continue
+        if k in ('set_edit', 'set_mode') and redo:
+            # choosing another edit subset / mode (a click, not a command) while commands can be redone changes what redo
+            # does; with nothing to redo it is what users do between commands, and undo must still restore exactly
+            continue
+        if k in ('set_edit', 'set_mode') and hist:
+            outside[0] = True
+            # AddData / RemoveData neither use nor record the edit-subset choice: undoing them after a click leaves the choice
+            # where the click put it (a click is not a command, the statement does not say what undo does to it)
+            for e in hist:
+                if e['kind'] in ('AddData', 'RemoveData'):
+                    e['edit_ok'] = False
+                # whatever is undone and re-done from here on is re-done under the new choice
+                e['redo_ok'] = False
+            res.probe('edit_choice_changed_between_commands')
         before = snapshot(w) if is_do else None
+        pre_redo = snapshot(w) if (k == 'redo' and redo and not redo[-1].get('redo_ok', True)) else None
         nlog = w.ncmds
         entry = None
         if k == 'undo' and hist:
@@ -140,8 +157,11 @@ def _execute(case, res, tmp):
             if redo:
                 res.probe('redo_cleared_by_new_command')
             c = w.cmdlog[-1]
+            # a command issued after such a click is re-done later under whatever choice is current then: its redo is
+            # followed (snapshots refreshed), not compared
             hist.append({'before': before, 'after': snapshot(w), 'kind': c['kind'],
-                         'created': bool(c.get('created_group')), 'edit_ok': True})
+                         'created': bool(c.get('created_group')), 'edit_ok': True, 'redo_ok': not outside[0]})
+            outside[0] = False
             if len(hist) > 50:
                 del hist[:-50]
                 res.probe('history_bound_hit')
@@ -167,6 +187,9 @@ def _execute(case, res, tmp):
             e = redo.pop()
             hist.append(e)
             got = snapshot(w)
+            if not e.get('redo_ok', True):
+                e['before'], e['after'] = pre_redo, got
+                res.probe('redo_followed_not_compared')
             d = diff(e['after'], got, e['edit_ok'])
             res.nchecks += 1
             res.nontrivial = True
